@@ -38,7 +38,9 @@ Proof.
   intros cells nets. split; [apply hpwl_is_sum|]. split; [reflexivity|]. intros net. apply net_hpwl_is_bbox.
 Qed.
 
-(* [F] incremental consistency: from the freshly built model, after ANY sequence
+(* [F over unbounded Z: no range hypothesis, hence nothing about int overflow of newValue - oldValue /
+   max - min in the C++ (incr_net_model.cpp:251-258); the int ranges are C07's hpwl_dom / incr listings]
+   incremental consistency: from the freshly built model, after ANY sequence
    of cell position updates, the maintained value equals the value of a model
    built from scratch at the current positions, and the per-net bounds are the
    from-scratch ones *)
@@ -60,7 +62,8 @@ Proof. intros pos nets. cbn. apply sum_widths_map. Qed.
 
 (* [F] models over a SUBSET of the cells (IncrNetModel::xTopology/yTopology(circuit, cells)): the
    pins of the other cells are folded into one min and one max pseudo-pin on an extra cell at
-   position 0; the folded net has exactly the min and the max of the original net (no hypothesis) *)
+   position 0; the folded net has exactly the min and the max of the original net (no hypothesis: over Z; the
+   C++ is defined only when positions and extents fit in int) *)
 Theorem c09_subset_folding_exact :
   forall gpos subset net,
   net_minmax (local_vec gpos subset) (topo_net gpos subset net) = net_minmax gpos net.
